@@ -20,6 +20,16 @@ Definition ostr_eqb (a b : outcome str) : bool :=
   | _, _ => false
   end.
 
+(* suite cased: (source, parts of SigmaCasedString.from_sigma_string(SigmaString(s)), parts of SigmaCasedString(s), parts of
+   the converted string afterwards, result is a SigmaCasedString): a case-sensitive string has the parts of the parsed
+   source whichever way it is made, and the conversion leaves its argument alone *)
+Definition judge_cased (c : str * sstring * sstring * sstring * bool) : N :=
+  let '(s, iconv, idirect, iafter, icls) := c in
+  let v := parse true s in
+  let agree := parts_eqb v iconv && parts_eqb v idirect && parts_eqb v iafter && icls in
+  let spec := items_eqb (items iconv) (iparse s) && items_eqb (items idirect) (iparse s) && icls in
+  bits agree spec true (existsb (fun x => is_special x || N.eqb x c_bs) s).
+
 (* suite plain: (source, impl parts, impl plain form, impl parts of re-parsed plain form) *)
 Definition judge_plain (c : str * sstring * str * sstring) : N :=
   let '(s, iparts, iplain, ire) := c in
